@@ -57,7 +57,7 @@ struct Totals {
     uint64_t idleProbes = 0, readerParksJudged = 0, readersNoWriter = 0, rendezvous = 0, rendezvousReaders = 0;
     uint64_t predictedParks = 0, predictedFast = 0, lateArrivalPatterns = 0, lateArrivals = 0;
     std::atomic<uint64_t> nestedSections{0}, nestedSameResource{0};
-    uint64_t deepQueues = 0;
+    uint64_t deepQueues = 0, readerCrowds = 0, marathonRequests = 0, marathonHandovers = 0;
     std::vector<uint64_t> fps;          // fingerprints of non-trivial cases
     std::vector<std::string> samples;
 } T;
@@ -403,10 +403,18 @@ void runPattern(uint64_t caseIdx, rt::Rng rng) {
         for (int i = 0; i < len; ++i) word.push_back((k >> i) & 1);
     } else if (idx % 89 == 7) {
         // a very deep queue: 70-160 requests, mostly writers so that they do not merge, parked behind one holder
-        holder = rng.below(2);
-        int len = (int) rng.range(70, 160);
-        for (int i = 0; i < len; ++i) word.push_back(rng.below(100) < 85 ? W : R);
-        ++T.deepQueues;
+        if (rng.chance(400)) {
+            // one crowd of more than 255 readers queued behind a writer: they form a single batch
+            holder = W;
+            int len = (int) rng.range(257, 330);
+            for (int i = 0; i < len; ++i) word.push_back(R);
+            ++T.readerCrowds;
+        } else {
+            holder = rng.below(2);
+            int len = (int) rng.range(70, 160);
+            for (int i = 0; i < len; ++i) word.push_back(rng.below(100) < 85 ? W : R);
+            ++T.deepQueues;
+        }
     } else {
         holder = rng.below(2);
         int len = (int) rng.range(7, 10);
@@ -585,6 +593,55 @@ void runPattern(uint64_t caseIdx, rt::Rng rng) {
     spy::pinCpus(0);
 }
 
+// ------------------------------------------------------------------ marathon: one very long busy period
+// Every holder releases only after somebody else is parked on the Resource, so the queue never drains and the
+// Resource never passes through its idle state: whatever it counts per busy period (tickets) keeps growing.
+void runMarathon(uint64_t caseIdx, rt::Rng rng) {
+    int nT = (int) rng.range(3, 6);
+    long total = rt::optInt("marathon", 90000);
+    int wp = (int) rng.range(300, 700);
+    char desc[200];
+    snprintf(desc, sizeof desc, "marathon threads=%d writePermille=%d requests=%ld in one uninterrupted busy period", nT, wp, total);
+    gCaseDesc = desc;
+    rt::crumb("%s", desc);
+    gPhase = "marathon";
+    spy::disableDelays();
+    spy::pinCpus(0);
+    freshResource();
+    std::atomic<long> left{total};
+    std::atomic<uint64_t> parked{0}, handovers{0};
+    std::vector<std::thread> th;
+    for (int t = 0; t < nT; ++t)
+        th.emplace_back([&, t, seed = rng.next()] {
+            rt::Rng r(seed);
+            spy::self()->role.store(t);
+            while (!g.go.load(std::memory_order_acquire)) sched_yield();
+            Section s;
+            while (left.fetch_sub(1) > 0) {
+                uint8_t type = r.chance((unsigned) wp) ? W : R;
+                section(type, (uint8_t) r.below(2), s, "marathon", [&] {
+                    // hold on until another request waits behind us (bounded: all others may be inside with us)
+                    for (int spin = 0; spin < 2000 && spy::parkedOn(g.res, sizeof(Resource)) == 0; ++spin) sched_yield();
+                    if (spy::parkedOn(g.res, sizeof(Resource)) > 0) handovers.fetch_add(1, std::memory_order_relaxed);
+                });
+                if (s.park) parked.fetch_add(1, std::memory_order_relaxed);
+                spy::noteProgress();
+            }
+        });
+    g.go.store(1, std::memory_order_release);
+    for (auto &x : th) x.join();
+    idleProbe("marathon");
+    ++T.runs;
+    T.sections += (uint64_t) total;
+    T.parks += parked.load();
+    T.marathonRequests += (uint64_t) total;
+    T.marathonHandovers += handovers.load();
+    rt::Hash h;
+    h.add(caseIdx); h.add((uint64_t) nT); h.add((uint64_t) wp);
+    T.fps.push_back(h.get());
+    if (T.samples.size() < 3) T.samples.push_back(rt::Json().kv("case", caseIdx).kv("what", desc).kv("requestsThatParked", parked.load()).kv("releasesWithSomebodyQueued", handovers.load()).str());
+}
+
 void onDeadlock(const std::string &desc) {
     bool rdv = strcmp(gPhase, "rendezvous") == 0;
     uint64_t occ = g.occ.load();
@@ -605,6 +662,7 @@ int main(int argc, char **argv) {
         rt::setCase(c);
         rt::Rng rng(rt::mix(rt::st().seed, c));
         if (mode == "stress") runStress(c, rng);
+        else if (mode == "marathon") runMarathon(c, rng);
         else runPattern(c, rng);
         spy::recycle();
     }
@@ -623,7 +681,7 @@ int main(int argc, char **argv) {
                    .kv("readersNoWriter", T.readersNoWriter).kv("readerParksJudged", T.readerParksJudged)
                    .kv("rendezvous", T.rendezvous).kv("rendezvousReaders", T.rendezvousReaders)
                    .kv("predictedParks", T.predictedParks).kv("predictedFast", T.predictedFast)
-                   .kv("lateArrivalPatterns", T.lateArrivalPatterns).kv("lateArrivals", T.lateArrivals).kv("sectionsNestedInOtherResource", T.nestedSections.load()).kv("recursiveReadLocks", T.nestedSameResource.load()).kv("queuesDeeperThan64", T.deepQueues)
+                   .kv("lateArrivalPatterns", T.lateArrivalPatterns).kv("lateArrivals", T.lateArrivals).kv("sectionsNestedInOtherResource", T.nestedSections.load()).kv("recursiveReadLocks", T.nestedSameResource.load()).kv("queuesDeeperThan64", T.deepQueues).kv("readerCrowdsOver255", T.readerCrowds).kv("marathonRequests", T.marathonRequests).kv("marathonReleasesWithQueue", T.marathonHandovers)
                    .kv("nontrivial", (uint64_t) T.fps.size())
                    .kv("delaysAfterWake", k.afterWake.load()).kv("delaysCondEntry", k.condEntry.load())
                    .kv("delaysOther", k.beforeLock.load() + k.afterUnlock.load() + k.beforeNotify.load() + k.threadStart.load())
